@@ -33,6 +33,33 @@ def _asyncio_class():
     return _state['asyncio_cls']
 
 
+class PartialSock(socket.socket):
+    """a real socket whose send() accepts only part of the data, following a scripted pattern (0 = EAGAIN, None = all):
+    what a kernel send buffer under back-pressure does.  loop.sock_sendall and any direct send() go through it."""
+    pattern = (None,)
+    pos = 0
+    log = None
+
+    def send(self, data, *a):
+        k = self.pattern[self.pos % len(self.pattern)]
+        self.pos += 1
+        if self.log is None:
+            self.log = []
+        if k == 0:
+            self.log.append(0)
+            raise BlockingIOError(11, 'verif: send buffer full')
+        n = socket.socket.send(self, bytes(data[:k]) if k is not None else data, *a)
+        self.log.append(n)
+        return n
+
+
+def partial_socket(sock, pattern):
+    ps = PartialSock(sock.family, sock.type, sock.proto, fileno=sock.detach())
+    ps.pattern = tuple(pattern)
+    ps.log = []
+    return ps
+
+
 class _SockTransport(object):
     def __init__(self, sock):
         self.sock = sock
@@ -68,7 +95,7 @@ def _twisted_conn(sock):
     return PushTwisted(sock)
 
 
-def run_pushes(reactor_kind, progs, out_buffer_size=4096, timeout=5.0, switch=1e-5):
+def run_pushes(reactor_kind, progs, out_buffer_size=4096, timeout=5.0, switch=1e-5, partial=None, log=None):
     """progs: list (one per thread) of lists of bytes.  Returns (received bytes, errors) after all threads pushed and the
     expected number of bytes arrived (or `timeout` s of silence)."""
     import sys
@@ -76,6 +103,8 @@ def run_pushes(reactor_kind, progs, out_buffer_size=4096, timeout=5.0, switch=1e
     b.settimeout(0.05)
     errors = []
     if reactor_kind == 'asyncio':
+        if partial:
+            a = partial_socket(a, partial)
         conn = _asyncio_class()(a, out_buffer_size)
     else:
         conn = _twisted_conn(a)
@@ -119,6 +148,8 @@ def run_pushes(reactor_kind, progs, out_buffer_size=4096, timeout=5.0, switch=1e
             pass
     finally:
         sys.setswitchinterval(old)
+        if log is not None and partial:
+            log.extend(a.log or [])
         if reactor_kind == 'asyncio':
             w = conn._write_watcher
             if w is not None:
@@ -128,6 +159,98 @@ def run_pushes(reactor_kind, progs, out_buffer_size=4096, timeout=5.0, switch=1e
         finally:
             b.close()
     return bytes(got), errors
+
+
+def _read_all(b, total, timeout):
+    got = bytearray()
+    b.settimeout(0.05)
+    deadline = time.time() + timeout
+    while len(got) < total and time.time() < deadline:
+        try:
+            d = b.recv(1 << 16)
+        except socket.timeout:
+            continue
+        if not d:
+            break
+        got += d
+        deadline = time.time() + timeout
+    try:
+        d = b.recv(1 << 16)
+        if d:
+            got += d
+    except socket.timeout:
+        pass
+    return bytes(got)
+
+
+def run_asyncio_loop_pushes(app_msgs, loop_msgs, out_buffer_size, timeout=3.0):
+    """asyncio: an application thread pushes app_msgs[0], response-callback style pushes are made ON the loop thread
+    (loop_msgs = [(bytes, depth)]: pushed `depth` loop iterations after the iteration that first sees the application
+    push), then the application thread pushes the rest of app_msgs.  The loop is held while everything is scheduled, so
+    the relative order in its ready queue is deterministic.  Returns the bytes received by the peer."""
+    a, b = socket.socketpair()
+    try:
+        conn = _asyncio_class()(a, out_buffer_size)
+        loop = conn._loop
+        gate = threading.Event()
+        loop.call_soon_threadsafe(gate.wait, 5)
+
+        def deferred(m, d):
+            def f():
+                if d == 0:
+                    conn.push(m)            # on the loop thread: the `else` branch of AsyncioConnection.push
+                else:
+                    loop.call_soon(deferred(m, d - 1))
+            return f
+        if app_msgs:
+            conn.push(app_msgs[0])
+        for m, d in loop_msgs:
+            loop.call_soon_threadsafe(deferred(m, d))
+        for m in app_msgs[1:]:
+            conn.push(m)
+        gate.set()
+        total = sum(len(m) for m in app_msgs) + sum(len(m) for m, _ in loop_msgs)
+        got = _read_all(b, total, timeout)
+        conn._write_watcher.cancel()
+        return got
+    finally:
+        a.close()
+        b.close()
+
+
+def run_twisted_read_pushes(m1, m2, m3, timeout=3.0):
+    """twisted: thread A pushes m1 while the reactor is busy and has handle_read() for this connection queued BEFORE it;
+    the reactor then decodes a real RESULT frame inside handle_read()/process_msg and runs the request's callback, which
+    pushes m3 (as handshake/retry callbacks do) and waits; meanwhile thread A pushes m2; the callback is released.
+    Program order: thread 0 = [m1, m2], thread 1 (reactor) = [m3].  Returns the bytes received by the peer."""
+    import struct
+    from twisted.internet import reactor
+    from cassandra.protocol import ProtocolHandler
+    a, b = socket.socketpair()
+    try:
+        conn = _twisted_conn(a)
+        e1, inside, e2 = threading.Event(), threading.Event(), threading.Event()
+
+        def cb(response):
+            if m3 is not None:
+                conn.push(m3)
+            inside.set()
+            e2.wait(5)
+        conn._requests[5] = (cb, ProtocolHandler.decode_message, None)
+        reactor.callFromThread(e1.wait, 5)                       # the reactor is busy
+        conn._iobuf.write(struct.pack('>BBhBi', 0x84, 0, 5, 0x08, 4) + struct.pack('>i', 1))   # RESULT void on stream 5
+        reactor.callFromThread(conn.handle_read)
+        conn.push(m1)
+        e1.set()
+        ok = inside.wait(5)
+        conn.push(m2)
+        e2.set()
+        total = len(m1) + len(m2) + (len(m3) if m3 else 0)
+        got = _read_all(b, total, timeout)
+        return got, ok
+    finally:
+        a.close()
+        b.close()
 
 
 def shutdown():
